@@ -573,3 +573,10 @@ package ast
 //@     invariant count0: $i < 0 ==> len(results) == 0
 //@     invariant count1: $i == 0 ==> (isNull(types[0]) ==> len(results) == 0) && (!isNull(types[0]) ==> len(results) == 1 && results[0] == types[0])
 //@     invariant count2: $i == 1 ==> (isNull(types[0]) && !isNull(types[1]) ==> len(results) == 1 && results[0] == types[1]) && (!isNull(types[0]) && isNull(types[1]) ==> len(results) == 1 && results[0] == types[0])
+//
+//@ func StructType.FieldByName
+//@   property C15
+//@   modifies nothing
+//@   ensures  found: result.1 == (exists i: int :: 0 <= i && i < len(structType.Fields) && structType.Fields[i].Name == name)
+//@   loop 0:
+//@     invariant none: forall i: int :: 0 <= i && i <= $i ==> structType.Fields[i].Name != name
